@@ -228,7 +228,7 @@ func vfRunStorm(t *testing.T, spec *vfSpec, res *vfRes) {
 					_ = s.SetReadDeadline(time.Now().Add(10 * time.Second))
 					var rerr error
 					st.call(1, "chaos", func() { _, _, rerr = s.ReadSCTP(buf) })
-					if rerr != nil && !errors.Is(rerr, os.ErrDeadlineExceeded) {
+					if rerr != nil && !errors.Is(rerr, ErrReadDeadlineExceeded) {
 						return
 					}
 					select {
@@ -317,7 +317,9 @@ func vfRunStorm(t *testing.T, spec *vfSpec, res *vfRes) {
 							case err == nil:
 								// with two readers on one stream the order between them is not observable
 								st.onRead(side, uint16(1+di), buf[:n], spec.x("double_readers", 0) == 0) //nolint:gosec
-							case errors.Is(err, os.ErrDeadlineExceeded):
+							case errors.Is(err, ErrReadDeadlineExceeded):
+								// the stream's own read deadline (set by a query goroutine); a terminal error of the
+								// association may also wrap a transport time-out and must end the reader
 								_ = s.SetReadDeadline(time.Time{})
 							case errors.Is(err, io.ErrShortBuffer):
 								res.violate("C18", "read/short/spurious", "ReadSCTP into an 8 kB buffer reported a short buffer (largest message is 4000 bytes)")
